@@ -83,6 +83,24 @@ func c06Gen(tier string, seed int64) []core.Case {
 			}
 		}
 	}
+	// the smallest committees, reduced catalogue
+	for _, sc := range smallFaultSessions() {
+		for fiI, fi := range staticFields[sc.proto] {
+			ix := ""
+			if fi.Repeated {
+				ix = "first"
+			}
+			hows := []string{"+1", "zero"}
+			if tier == "thorough" {
+				hows = []string{"+1", "zero", "N", "2^4096"}
+			}
+			for _, how := range hows {
+				f := faultSpec{fi.Type, fi.Field, ix, how, []string{"low", "high"}[(k+fiI)%2], false, ""}
+				id := fmt.Sprintf("W1/small/%s/%s", sc.proto, f.String())
+				cs = append(cs, core.Case{ID: id, Class: id, Kind: "w1", P: f.P(sc.P()), Cost: sc.cost})
+			}
+		}
+	}
 	// one bad point-to-point message to ONE recipient, ordinary traffic afterwards: the victim reports an error in the
 	// middle of the protocol and keeps receiving the other parties' (genuine) later messages
 	for _, sc := range faultSessions(tier) {
